@@ -59,6 +59,11 @@ where
     let on_unsubscribe = Arc::clone(&self.on_unsubscribe);
 
     Observable::create(move |s| {
+      if !s.is_subscribed() {
+        // an observer that has already ended (e.g. its operator finished while it was
+        // still subscribing its inputs) is never registered
+        return;
+      }
       let serial = {
         let mut serial = serial.write().unwrap();
         *serial += 1;
